@@ -54,7 +54,7 @@ CONFIGS = {
     'AQUA-MARG':          ('AQUA', 'MARG', None, True, 'right', 0.02, False),
     'Fourati-MARG':       ('Fourati', 'MARG', None, True, 'left', 0.02, False),
     'ROLEQ-MARG-NED':     ('ROLEQ', 'MARG', 'NED', True, 'left', 2e-05, False),
-    'ROLEQ-MARG-ENU':     ('ROLEQ', 'MARG', 'ENU', True, 'left', 0.002, True),
+    'ROLEQ-MARG-ENU':     ('ROLEQ', 'MARG', 'ENU', True, 'left', 0.002, False),
     'FKF-MARG':           ('FKF', 'MARG', None, False, 'left', 0.012, False),
     'Complementary-IMU':  ('Complementary', 'IMU', None, False, 'left', 0.001, False),
     'Complementary-MARG': ('Complementary', 'MARG', None, False, 'left', 0.002, False),
@@ -71,12 +71,12 @@ ASSUMPTIONS = [
     '(never zero: an all-zero gyro makes Madgwick/Mahony/AQUA/Fourati return the prior by design); g_ref/m_ref are read back '
     'from an instance (EKF, ROLEQ, Fourati) or +z / [cos 60, 0, sin 60] (Mahony-MARG: [0, cos 60, -sin 60], the heading of its '
     'am2q start); magnetic references are always explicit (dip 60 deg) because the defaults come from a WMM evaluated at import time',
-    'EKF frame=ENU and ROLEQ frame=ENU batch runs get q0 = the true start attitude: their own initialisation (acc2q / ecompass / '
-    '21 OLEQ iterations) does not start at the fixed point of their ENU measurement model (180 deg / ~2 rad off), and a record '
-    'that begins in that transient is not "otherwise valid, converged" (that is C05 business); with q0 the first row is not '
-    'consumed, so first-row faults are trivial for these three configurations (counted in class trivial:...)',
+    'EKF frame=ENU batch runs get q0 = the true start attitude: EKF\'s own initialisation (acc2q / ecompass) does not start at the '
+    'fixed point of its ENU measurement model (exactly 180 deg off for every attitude but the identity), and a record that begins '
+    'in that transient is not "otherwise valid, converged" (that is C04/C05 business); with q0 the first row is not consumed, so '
+    'first-row faults are trivial for these two configurations (counted in class trivial:...)',
     'information only: base.tracking_defect = | rotation angle from row 0 of the fault-free estimate - the same for the true '
-    'motion | (convention-free) is <= 2.4e-3 rad for every configuration (UKF 8e-3), i.e. every base run is converged',
+    'motion | (convention-free) is <= 1.4e-3 rad for every configuration (UKF 3e-2), i.e. every base run is converged',
     'streaming entry: one update call per row (row 0 included) on a fresh data-less instance, started from the first row of the '
     'fault-free batch run; a ValueError on a faulted row is a refusal of that sample (allowed): the caller carries the previous '
     'estimate; a ValueError on a non-faulted row is a violation (state corrupted by the dropout)',
@@ -84,7 +84,7 @@ ASSUMPTIONS = [
     'not possible to tell from outside which row raised, so a NaN that is caught one row later by Quaternion()\'s NaN check counts '
     'as a refusal in batch mode - the streaming entry and the tail faults (NaN in the last row has no later row) expose it',
     'unit norm: | |q| - 1 | <= 1e-9 (observed <= 3.4e-16); judged only when the fault-free output of the same configuration is unit '
-    '(FKF never is: reported once per base run at its own site, not once per fault)',
+    '(a fault-free output that is not unit - FKF at design time - is reported once per base run at its own site, not once per fault)',
     'recovery oracle is differential: deviation = rotation angle between faulted and fault-free estimate of the SAME filter on the '
     'same record (full angle for MARG; for IMU architectures the heading-free swing angle about the reference z axis, taken on '
     'the side on which the state composes a heading change: left, AQUA right), maximum over all rows later than W = 24 rows after '
@@ -109,10 +109,10 @@ ASSUMPTIONS = [
     'FKF and Complementary have no streaming entry; UKF has no MARG architecture; AQUA ignores `frame`; Complementary is also '
     'judged on its native output W (angles)',
 ]
+# only classes fixed by the enumeration itself (outcome classes such as refusals depend on the tree under test)
 REQUIRED_CLASSES = ['pos:first', 'pos:interior', 'pos:last', 'len:1', 'len:2', 'len:3', 'len:all', 'pairs',
-                    'sensors:acc', 'sensors:mag', 'sensors:gyr', 'sensors:acc+mag', 'sensors:acc+mag+gyr',
-                    'entry:batch', 'entry:stream', 'outcome:completed', 'outcome:refused-record(batch)',
-                    'outcome:refused-sample(stream)', 'recovery:judged', 'recovery:first-sample(contraction)']
+                    'sensors:acc', 'sensors:mag', 'sensors:gyr', 'sensors:acc+mag', 'sensors:acc+mag+gyr', 'sensors:acc+gyr',
+                    'entry:batch', 'entry:stream', 'outcome:completed', 'recovery:judged']
 
 S_BASE_RUN = 'fault-free base run completes'
 S_BASE_ROWS = 'fault-free base run: every row is a finite unit quaternion'
@@ -121,9 +121,14 @@ S_VALID = 'streaming: a valid sample after the dropout is not refused'
 S_SHAPE = 'one real (N,4) row per sample'
 S_FINITE = 'every emitted row is finite (no NaN/inf at the dropout or after it)'
 S_UNIT = 'every emitted row is a unit quaternion'
-S_ANGLES = 'Complementary.W: every emitted angle triple is finite'
+S_ANGLES = 'W: every emitted angle triple is finite'
 S_RECOVER = 'estimate returns to the fault-free run within the recovery window'
 S_CONTRACT = 'first-sample dropout: deviation from the fault-free run does not grow'
+
+
+def site(spec, law):
+    """Stable site string: the class under test and the law."""
+    return f'{spec.filter}: {law}'
 
 
 # ---------------------------------------------------------------------------------------------------------------------
@@ -309,7 +314,7 @@ def job_faults(ctx, name, entry, att, att_index, lo, hi):
     first = lo == 0
     if Qb is None:
         if first:
-            ctx.fail(S_BASE_RUN, bkey, st[1], 'completes')
+            ctx.fail(site(spec, S_BASE_RUN), bkey, st[1], 'completes')
         ctx.cls('skipped:base-run-failed', hi - lo)
         return
     base_ok = rf.well_formed(Qb, N) and not rf.nonfinite_rows(Qb)
@@ -317,9 +322,9 @@ def job_faults(ctx, name, entry, att, att_index, lo, hi):
     if first:
         ctx.traces += 1
         if not base_ok:
-            ctx.fail(S_BASE_ROWS, bkey, {'nonfinite_rows': rf.nonfinite_rows(Qb) if rf.well_formed(Qb, N) else 'malformed'}, 'finite rows')
+            ctx.fail(site(spec, S_BASE_ROWS), bkey, {'nonfinite_rows': rf.nonfinite_rows(Qb) if rf.well_formed(Qb, N) else 'malformed'}, 'finite rows')
         elif not base_unit:
-            ctx.fail(S_BASE_ROWS, bkey, {'max||q|-1|': rf.unit_defect(Qb), 'norm_first': float(np.linalg.norm(Qb[0])),
+            ctx.fail(site(spec, S_BASE_ROWS), bkey, {'max||q|-1|': rf.unit_defect(Qb), 'norm_first': float(np.linalg.norm(Qb[0])),
                                          'norm_last': float(np.linalg.norm(Qb[-1]))}, 0.0, UNIT_TOL)
         if base_ok:
             # information: how well the fault-free run follows the true motion (rotation angle from row 0, convention-free)
@@ -360,7 +365,7 @@ def evaluate(ctx, spec, entry, att, fault, key, g, a, m, q0, Qb, base_unit, q_in
         if res[0] == 'error':
             ctx.cls('outcome:other-exception')
             ctx.outcome((name, entry, 'error', res[1].split(':')[0]))
-            ctx.fail(S_EXC, key, res[1], 'completes, or raises ValueError')
+            ctx.fail(site(spec, S_EXC), key, res[1], 'completes, or raises ValueError')
             ctx.seen(key)
             return
         if res[0] == 'refused':
@@ -375,13 +380,13 @@ def evaluate(ctx, spec, entry, att, fault, key, g, a, m, q0, Qb, base_unit, q_in
         if res[0] == 'error':
             ctx.cls('outcome:other-exception')
             ctx.outcome((name, entry, 'error', res[2].split(':')[0]))
-            ctx.fail(S_EXC, key, {'row': res[1], 'faulted_rows': rows[:8], 'exception': res[2]}, 'completes, or raises ValueError on a faulted row')
+            ctx.fail(site(spec, S_EXC), key, {'row': res[1], 'faulted_rows': rows[:8], 'exception': res[2]}, 'completes, or raises ValueError on a faulted row')
             ctx.seen(key)
             return
         if res[0] == 'refused-valid':
             ctx.cls('outcome:refused-valid-sample')
             ctx.outcome((name, entry, 'refused-valid'))
-            ctx.fail(S_VALID, key, {'row': res[1], 'faulted_rows': rows[:8], 'ValueError': res[2]}, 'valid samples are processed')
+            ctx.fail(site(spec, S_VALID), key, {'row': res[1], 'faulted_rows': rows[:8], 'ValueError': res[2]}, 'valid samples are processed')
             ctx.seen(key)
             return
         Q, refused = res[1], res[2]
@@ -389,16 +394,16 @@ def evaluate(ctx, spec, entry, att, fault, key, g, a, m, q0, Qb, base_unit, q_in
             ctx.cls('outcome:refused-sample(stream)')
     ctx.cls('outcome:completed')
     if not rf.well_formed(Q, N):
-        ctx.fail(S_SHAPE, key, {'type': type(Q).__name__, 'shape': list(getattr(Q, 'shape', ())), 'dtype': str(getattr(Q, 'dtype', ''))}, [N, 4])
+        ctx.fail(site(spec, S_SHAPE), key, {'type': type(Q).__name__, 'shape': list(getattr(Q, 'shape', ())), 'dtype': str(getattr(Q, 'dtype', ''))}, [N, 4])
         ctx.seen(key)
         return
     if extra is not None and not np.all(np.isfinite(extra)):
         bad = [int(i) for i in np.nonzero(~np.all(np.isfinite(extra), axis=1))[0]]
-        ctx.fail(S_ANGLES, key, {'first_bad_row': bad[0], 'bad_rows': len(bad), 'of': N, 'faulted_rows': rows[:8]}, 'finite angles')
+        ctx.fail(site(spec, S_ANGLES), key, {'first_bad_row': bad[0], 'bad_rows': len(bad), 'of': N, 'faulted_rows': rows[:8]}, 'finite angles')
     bad = rf.nonfinite_rows(Q)
     if bad:
         ctx.outcome((name, entry, 'nonfinite', pos))
-        ctx.fail(S_FINITE, key, {'first_bad_row': bad[0], 'bad_rows': len(bad), 'of': N, 'faulted_rows': rows[:8], 'row': Q[bad[0]]}, 'finite rows')
+        ctx.fail(site(spec, S_FINITE), key, {'first_bad_row': bad[0], 'bad_rows': len(bad), 'of': N, 'faulted_rows': rows[:8], 'row': Q[bad[0]]}, 'finite rows')
         ctx.seen(key)
         return
     ud = rf.unit_defect(Q)
@@ -406,7 +411,7 @@ def evaluate(ctx, spec, entry, att, fault, key, g, a, m, q0, Qb, base_unit, q_in
         ctx.track(f'unit_defect[{name}]', ud)
         if not ud <= UNIT_TOL:
             ctx.outcome((name, entry, 'nonunit', pos))
-            ctx.fail(S_UNIT, key, {'max||q|-1|': ud, 'faulted_rows': rows[:8]}, 0.0, UNIT_TOL)
+            ctx.fail(site(spec, S_UNIT), key, {'max||q|-1|': ud, 'faulted_rows': rows[:8]}, 0.0, UNIT_TOL)
     else:
         ctx.cls('unit-not-judged(fault-free output is not unit either)')
     changed = bool(refused) or not np.array_equal(Q, Qb)
@@ -431,7 +436,7 @@ def evaluate(ctx, spec, entry, att, fault, key, g, a, m, q0, Qb, base_unit, q_in
         ctx.track(f'first.dev_after/dev_before[{name}]', d_end / d0 if d0 > spec.tol else 0.0)
         ctx.track(f'first.dev_before[{name}]', d0)
         if not d_end <= max(spec.tol, d0):
-            ctx.fail(S_CONTRACT, key, {'deviation_after_fault': d0, f'deviation_{W}_rows_later': d_end}, f'<= max({spec.tol}, deviation_after_fault)', spec.tol)
+            ctx.fail(site(spec, S_CONTRACT), key, {'deviation_after_fault': d0, f'deviation_{W}_rows_later': d_end}, f'<= max({spec.tol}, deviation_after_fault)', spec.tol)
         ctx.outcome((name, entry, 'completed', pos, 'contraction'))
         return
     ctx.cls('recovery:judged')
@@ -439,7 +444,7 @@ def evaluate(ctx, spec, entry, att, fault, key, g, a, m, q0, Qb, base_unit, q_in
     ctx.track(f'transient.dev[{name}/{entry}]', float(dev.max()))
     ctx.outcome((name, entry, 'completed', pos, 'recovered' if d_end <= spec.tol else 'not-recovered'))
     if not d_end <= spec.tol:
-        ctx.fail(S_RECOVER, key, {'deviation_at_judged_rows': d_end, 'max_deviation': float(dev.max()), 'judged_rows': [j0, N - 1],
+        ctx.fail(site(spec, S_RECOVER), key, {'deviation_at_judged_rows': d_end, 'max_deviation': float(dev.max()), 'judged_rows': [j0, N - 1],
                                   'faulted_rows': rows[:8]}, 0.0, spec.tol)
 
 
